@@ -107,20 +107,41 @@ func runC15(c *Ctx) {
 	}
 	corp := corpusDocs()
 	var hoptItems []docItem
+	// long slugs: headings that agree on their first L bytes, for L around every power of two (a
+	// limit or a truncation on ids applied before or after the id table made them unique), and
+	// slugs that already end in the suffix the table would add
+	var longDocs [][]byte
+	for _, L := range []int{15, 16, 17, 31, 32, 33, 63, 64, 65, 100, 127, 128, 129, 130, 200, 255, 256, 257, 258, 511, 512, 513, 1023, 1024, 1025, 2048, 4097} {
+		x := strings.Repeat("q", L)
+		y := strings.Repeat("word ", L/5+1)[:L]
+		for _, hs := range [][]string{{x, x}, {x, x, x}, {x + "a", x + "b"}, {x, x + "-1", x}, {x + "-1", x, x}, {x[:L-2], x[:L-2] + "-1", x[:L-2]}, {y, y}, {y + "tail one", y + "tail two", y}, {x, strings.ToUpper(x)}} {
+			var d, e strings.Builder
+			for i, h := range hs {
+				d.WriteString("# " + h + "\n\n")
+				e.WriteString([]string{"> ## " + h + "\n\n", h + "\n===\n\n", "- ### " + h + " ###\n\n"}[i%3])
+			}
+			longDocs = append(longDocs, []byte(d.String()), []byte(e.String()))
+		}
+	}
 	for _, cf := range cfgs {
 		used := cf.Build() // long-lived instance: history must not matter
-		for i := 0; i < nd; i++ {
+		for i := -len(longDocs); i < nd; i++ {
 			var doc strings.Builder
-			nh := 1 + c.R.Intn(6)
-			for h := 0; h < nh; h++ {
-				doc.WriteString(mkHeading(c.R.PickS(c15Values)))
-				if c.R.Intn(3) == 0 {
-					doc.WriteString("text\n\n")
+			var src []byte
+			if i < 0 {
+				src = longDocs[i+len(longDocs)]
+			} else {
+				nh := 1 + c.R.Intn(6)
+				for h := 0; h < nh; h++ {
+					doc.WriteString(mkHeading(c.R.PickS(c15Values)))
+					if c.R.Intn(3) == 0 {
+						doc.WriteString("text\n\n")
+					}
 				}
-			}
-			src := []byte(doc.String())
-			if i%10 == 9 {
-				src = corp[c.R.Intn(len(corp))]
+				src = []byte(doc.String())
+				if i%10 == 9 {
+					src = corp[c.R.Intn(len(corp))]
+				}
 			}
 			out, errS, panicS := convertSafe(used, src)
 			if errS != "" || panicS != "" {
@@ -154,7 +175,7 @@ func runC15(c *Ctx) {
 				c.Violate("heading-id-history", in, fmt.Sprintf("long-used instance gives %.200q, a fresh one %.200q", out, fresh), "heading-id-history")
 			}
 			c.Count("heading-documents", cf.Name()+string(src), len(ids) >= 2)
-			if i < 2 {
+			if i >= 0 && i < 2 {
 				c.Sample(map[string]string{"config": cf.Name(), "source": q(src), "ids": strings.Join(ids, ",")})
 			}
 		}
